@@ -4,3 +4,6 @@ package cache
 
 // verifPoint is a no-op unless built with -tags verif.
 func verifPoint(string, string, []byte) {}
+
+// verifWriteError never injects a write error unless built with -tags verif.
+func verifWriteError(string) error { return nil }
